@@ -907,6 +907,11 @@ func (r *runningStep) executeSubWorkflows(input executeInput) ([]any, map[int]st
 			case <-r.ctx.Done():
 				r.logger.Debugf("Aborting item %d execution.", i)
 				verifhook.Emit("FItem", "obj", r, "i", i, "op", "abort")
+				// An item that never ran has no result: record that, or a loop whose other items
+				// happened to succeed would report success with this item's entry missing.
+				r.lock.Lock()
+				itemErrors[i] = "aborted: the step was closed before the item could be executed"
+				r.lock.Unlock()
 				return
 			}
 
